@@ -69,6 +69,9 @@ pub const ONE_BYTE_BASE: u64 = 1 << 40;
 /// raw size the single-feature tile of this id is padded to exactly: both sides of the 1000-byte
 /// de-duplication threshold of the versatiles writer
 pub fn size_target(id: u64) -> Option<usize> {
+	if id % 1009 == 0 || id % 37 == 0 {
+		return None;
+	}
 	match id % 41 {
 		1 => Some(999),
 		2 => Some(1000),
@@ -102,8 +105,12 @@ pub fn pad_len(id: u64) -> usize {
 		MEMO.with(|m| m.borrow_mut().insert(id, pad));
 		return pad;
 	}
-	if id % 37 == 0 {
-		40_000
+	if id % 1009 == 0 {
+		// 1 MiB: only assigned explicitly (thorough tier, a block with more than 64 MiB of tile data)
+		1 << 20
+	} else if id % 37 == 0 {
+		// stays above the 32 KiB chunk gap of the versatiles reader also when gzip-compressed
+		60_000
 	} else if id % 5 == 0 {
 		1_300
 	} else {
@@ -889,6 +896,9 @@ pub fn levels_of(specs: &[SrcSpec]) -> BTreeMap<u8, Vec<(u32, u32)>> {
 
 fn next_id(next: &mut u64) -> u64 {
 	*next += 1;
+	if *next % 1009 == 0 {
+		*next += 1;
+	}
 	*next
 }
 fn next_id_with_target(next: &mut u64) -> u64 {
@@ -1058,6 +1068,47 @@ pub fn reader_line(rt: &tokio::runtime::Runtime, out: &mut Out, id: &mut Ident, 
 		}
 		index_s = if blocks.is_empty() { "-".to_string() } else { blocks.join("!") };
 		out.count_n("versatiles_index_entries_sharing_a_range", shared);
+		if op == "S" {
+			// how many read chunks the reader has to form per (box, block): 64 MiB / 32 KiB rules applied
+			// to the real index (reader.rs:310-335)
+			for bs in args.split(';') {
+				let b = parse_box(bs);
+				if b.is_empty() {
+					continue;
+				}
+				let mut per_block: HashMap<(u8, u32, u32), Vec<(u64, u64)>> = HashMap::new();
+				for ((x, y, z), s) in ident_of.iter() {
+					if *z == b.level && *x >= b.x_min && *x <= b.x_max && *y >= b.y_min && *y <= b.y_max {
+						let (o, l) = s.split_once(',').unwrap();
+						per_block.entry((*z, x >> 8, y >> 8)).or_default().push((o.parse().unwrap(), l.parse().unwrap()));
+					}
+				}
+				for (_, mut v) in per_block {
+					v.sort();
+					let (mut c_off, mut c_len) = (v[0].0, 0u64);
+					let mut chunks = 1u64;
+					let mut by_gap = 0u64;
+					let mut by_size = 0u64;
+					for (o, l) in v {
+						if c_off + (64 << 20) > o + l && c_off + c_len + (32 << 10) > o {
+							c_len = c_len.max(o + l - c_off);
+						} else {
+							if !(c_off + (64 << 20) > o + l) {
+								by_size += 1
+							} else {
+								by_gap += 1
+							}
+							chunks += 1;
+							c_off = o;
+							c_len = l;
+						}
+					}
+					out.count_n("versatiles_read_chunks", chunks);
+					out.count_n("versatiles_chunk_splits_by_32KiB_gap", by_gap);
+					out.count_n("versatiles_chunk_splits_by_64MiB_size", by_size);
+				}
+			}
+		}
 	} else {
 		let conn = match rusqlite::Connection::open_with_flags(&path, rusqlite::OpenFlags::SQLITE_OPEN_READ_ONLY) {
 			Ok(c) => c,
